@@ -306,9 +306,9 @@ def blob_facts(blob):
             rr.string()
             return 456
         if kt.startswith('ecdsa-sha2-'):
-            rr.string()
+            curve = rr.string().decode('ascii', 'replace')
             q = rr.string()
-            return (len(q) - 1) // 2 * 8
+            return {'nistp256': 256, 'nistp384': 384, 'nistp521': 521}.get(curve, (len(q) - 1) // 2 * 8)
         if kt == 'ssh-dss':
             p = rr.mpint()
             rr.mpint(); rr.mpint(); rr.mpint()
